@@ -31,7 +31,9 @@ CHY_PREFIX = os.path.join(env.REPO, 'chython') + os.sep
 AROMATIC_SEEDS = ['c1cc[nH]c1.Cl', 'c1ccccc1', 'Cc1ccccc1O', 'c1ccncc1', '[nH+]1ccccc1.[Cl-]', 'c1cnc[nH]1.OC(=O)C', 'c1ccc2ccccc2c1',
                   'Cc1cc[nH]n1', 'O=c1cccc[nH]1', 'c1ccoc1.CCO', 'c1ccsc1', 'Cn1ccnc1.[Na+].[Cl-]', 'c1ccc2[nH]ccc2c1', '[nH]1cccc1.[nH]1cccc1',
                   'C[n+]1ccccc1.[I-]', 'c1ccc(cc1)-c1ccccc1', 'OC(=O)c1ccccc1.N', 'c1cc[nH+]cc1.[O-]C(C)=O']
-AROMATIC_KINDS = ['obs', 'obs', 'copy', 'sub', 'sub', 'union', 'union', 'remap', 'flush', 'drop', 'clean_stereo', 'set_meta', 'set_xy']
+AROMATIC_KINDS = ['obs', 'obs', 'copy', 'sub', 'sub', 'union', 'union', 'remap', 'flush', 'drop', 'clean_stereo', 'set_meta', 'set_xy',
+                  'opaque', 'opaque']
+EDIT_KINDS = {'add_atom', 'add_bond', 'del_atom', 'del_bond', 'tx', 'add_atom_stereo', 'add_ct_stereo', 'invalid'}
 
 SEEDS = [
     '',  # empty molecule, built up by add_atom / add_bond only
@@ -64,7 +66,7 @@ MUTATORS = {'set_meta', 'set_xy', 'add_atom', 'add_bond', 'del_atom', 'del_bond'
             'add_atom_stereo', 'add_ct_stereo', 'invalid', 'opaque'}
 OPAQUE = ['explicify_hydrogens', 'implicify_hydrogens', 'clean_isotopes', 'remove_coordinate_bonds', 'neutralize',
           'standardize', 'fix_resonance', 'kekule', 'standardize_charges', 'canonicalize', 'clean2d',
-          'remove_metals', 'remove_acids', 'split_metal_salts']
+          'remove_metals', 'remove_acids', 'split_metal_salts', 'thiele']
 INVALID_KINDS = 15
 
 
@@ -260,6 +262,9 @@ class Sim(RxMixin):
         pre_sig = None
         if hi is not None and kind in MUTATORS:
             pre_sig = self._cache_sig(self.handles[hi].mol)
+        if hi is not None and kind in EDIT_KINDS and self.handles[hi].model.aromatic:
+            self.sig.append((kind, 'skip-aromatic'))
+            return          # editing a Thiele form is documented as unsupported
         try:
             res = getattr(self, 'op_' + kind)(op)
         except Violation as v:
@@ -864,10 +869,13 @@ class Sim(RxMixin):
         except Exception as e:
             tb = traceback.extract_tb(e.__traceback__)[-1]
             raise Violation(f'unexpected-exception:{name}:{type(e).__name__}', f'{e!r} at {tb.name}')
-        if any(b.order == 4 for *_, b in h.mol.bonds()):
-            raise Discard('aromatic bond produced')
         self.probes['opaque:' + name] += 1
         resync(h.model, h.mol)
+        # a Thiele form can be read, copied, cut, united, renumbered and normalised again, but not edited (hydrogens of aromatic
+        # heteroatoms are not recomputable): the handle switches between the two regimes with the form it is in
+        h.model.aromatic = any(b.order == 4 for *_, b in h.mol.bonds())
+        if h.model.aromatic:
+            self.probes['opaque_made_aromatic'] += 1
         return hi, None
 
     # ------------------------------------------------------------------ transactions
@@ -1164,6 +1172,10 @@ def gen_op(sim, rng, frng, cfg):
             kind = rng.choice(['add_atom', 'add_bond', 'del_atom', 'del_bond', 'tx'])
     sim._fresh_bias = None
     model = sim.handles[hi].model
+    if model.aromatic and kind in EDIT_KINDS:
+        kind = rng.choice(AROMATIC_KINDS)        # the handle is in its Thiele form (seed, or after thiele / canonicalize)
+    elif cfg.get('aromatic') and not model.aromatic and rng.random() < 0.6:
+        kind = rng.choices(KINDS, [w[k] for k in KINDS])[0]      # ... and back in a Kekule form after kekule(): edits again
     op = {'op': kind, 'h': hi}
     if kind == 'obs':
         op['names'] = [rng.randrange(len(OBSERVERS)) for _ in range(rng.choice([1, 1, 2, 3, 5, 8]))]
@@ -1717,7 +1729,9 @@ def main(argv):
             'known_findings_hit': sorted(known_hits),
             'real_components': ['chython (working tree of /repo): containers, rings, morgan, stereo, smiles, isomorphism, '
                                 'fingerprints', 'CachedMethods 0.2.0 except one method', 'CPython 3.12 sys.settrace'],
-            'stub_components': ['CachedMethods.class_cached_property.__get__ (shim, DESIGN 2.1)'],
+            'stub_components': ['CachedMethods.class_cached_property.__get__ (shim, DESIGN 2.1)',
+                                'JavaScript layout engine behind clean2d() (fixed coordinates; chython\'s wrapper around it is real)',
+                                'global random generator seeded per run'],
             'simulated_time': 'none - no clock or I/O is involved in this property',
         },
         'assumptions': [
